@@ -43,6 +43,7 @@ CONSTANTS N,          \* transaction slots 1..N (a slot can be reused after its 
           QSets,      \* argument sets for the *Union / CountDistinctClusters queries
           BiasTrim,   \* generator only: Trim picks an inclusion-minimal valid set (what a best-effort strategy usually returns)
           FinalAt,    \* generator only: at step FinalAt-1 the only enabled action is the full sweep (0: never, and steps are not counted)
+          ScriptMix,  \* generator only: Init draws sel from 0..ScriptMix; sel in 1..Len(Scripts) starts the behaviour with that script
           BigSize,    \* size of the occasional big transaction
           SetFees     \* fees SetTransactionFee chooses from
 
@@ -58,8 +59,9 @@ VARIABLES main, staging, hs,     \* the two graphs; hs = a staging graph exists 
           bb,                    \* "none" / "open": a BlockBuilder exists
           acc,                   \* acceptable_cost of this TxGraph
           step,
+          script, sel,           \* generator only: the scripted calls still to be made first (see Scripts)
           lastAct, lastRes
-vars == <<main, staging, hs, ref, fee, size, snap, bb, acc, step, lastAct, lastRes>>
+vars == <<main, staging, hs, ref, fee, size, snap, bb, acc, step, script, sel, lastAct, lastRes>>
 
 ----------------------------------------------------------------------------
 (* The naive graph *)
@@ -124,13 +126,30 @@ SweepRes == [main |-> StructOf("main"), top |-> StructOf("top"), hs |-> hs, ifr 
              diag |-> (hs /\ ~OvMain /\ ~Ov("top"))]
 
 ----------------------------------------------------------------------------
+\* Scripted openings for the generator. Each element is a prefix of an action tuple (lastAct) that the next call has to match.
+\* They make sure every run contains the shape "a dependency is added onto a cluster, applied by an inspector that needs no
+\* linearization, and a transaction is removed before anything asks for the order" (a cluster merged and split again while its
+\* linearization still needs fixing), in main and in staging, with and without a child paying for its parent.
+LazyMergeSplit(c, x, p, fc, fx, fp, q) ==
+  <<<<"add", c, fc, 1>>, <<"add", x, fx, 1>>, <<"dep", c, x>>, <<"sweep">>, <<"add", p, fp, 2>>, <<"dep", p, c>>, q, <<"remove", x, "desc">>, <<"sweep">>>>
+Scripts == <<
+  LazyMergeSplit(1, 2, 3, 1, 2, 0, <<"desc", 3, "top">>),
+  LazyMergeSplit(1, 2, 3, 0, 4, 2, <<"descu", <<1, 2>>, "top">>),
+  LazyMergeSplit(1, 2, 3, 2, 1, 4, <<"ndistinct", <<1, 2>>, "top">>),
+  LazyMergeSplit(1, 2, 3, 1, 1, 1, <<"anc", 2, "main">>),
+  <<<<"start">>>> \o LazyMergeSplit(2, 3, 4, 1, 2, 0, <<"desc", 4, "top">>),
+  <<<<"add", 6, 1, 1>>, <<"start">>>> \o LazyMergeSplit(1, 2, 3, 0, 2, 4, <<"descu", <<1, 2>>, "top">>) >>
+Matches(a) == IF script = <<>> THEN TRUE ELSE LET h == Head(script) IN a[1] = h[1] /\ \A i \in 2..Len(h) : a[i] = h[i]
+
 Init == /\ main = Empty /\ staging = Empty /\ hs = FALSE
+        /\ sel \in 0..ScriptMix /\ script = (IF sel \in 1..Len(Scripts) THEN Scripts[sel] ELSE <<>>)
         /\ ref = [t \in Tx |-> "none"] /\ fee = [t \in Tx |-> 0] /\ size = [t \in Tx |-> 0]
         /\ snap = FALSE /\ bb = "none" /\ acc \in AccCosts /\ step = 0
         /\ lastAct = <<"init">> /\ lastRes = "none"
 
 Going == step # FinalAt - 1
-Fin(a, r) == /\ lastAct' = a /\ lastRes' = r
+Fin(a, r) == /\ Matches(a) /\ script' = (IF script = <<>> THEN <<>> ELSE Tail(script)) /\ sel' = sel
+             /\ lastAct' = a /\ lastRes' = r
              /\ step' = (IF FinalAt = 0 THEN step ELSE step + 1)
              /\ acc' = acc
 \* fee/size are kept only for transactions that are in some graph (canonical states)
@@ -378,6 +397,6 @@ FeesMC1 == {1}
 GJ(g) == [txs |-> SortedSeq(g.txs), anc |-> g.anc]
 Proj == [main |-> GJ(main), staging |-> GJ(staging), hs |-> hs, ref |-> ref, fee |-> fee, size |-> size, snap |-> snap,
          bb |-> bb, cfg |-> [count |-> MaxCount, size |-> MaxSize, acc |-> acc], step |-> step]
-View0 == <<main, staging, hs, ref, fee, size, snap, bb, acc, step>>
+View0 == <<main, staging, hs, ref, fee, size, snap, bb, acc, step, script, sel>>
 Emit == VFEdge(Proj, lastAct', lastRes', Proj')
 ====
